@@ -1,8 +1,192 @@
 import CnlDriver.CS
-/-! `C15` driver table (stub). -/
-namespace Cnl.Drv
-open Cnl
+import CnlModel.Parse
+import CnlSpec.Token
+/-!
+`C15` driver table: literals, run-time `parse`, constant-driven deduction.
 
-def checkC15 (_toks : List String) (_res : String) : Option Verdict := none
+    C15 scan <token>                    => <neg> <base> <stride> <first> <bits> <digits> <frac>
+    C15 parse <T> <token>               => <T>:<value>
+    C15 lit <c|wide|cnl|cnl2> <token>   => <type>:<rep>:<value> | c(i128):<value>:D<digits> | REJECTED
+    C15 mk <function> <c(T)|T> <value>  => <type>:<rep>:<value>
+
+The oracle is `CnlSpec.Token` (grammar + positional value) and never looks at the model.
+-/
+namespace Cnl.Drv
+open Cnl Cnl.Parse
+
+def showParams (p : Params) : String :=
+  s!"{if p.isNegative then 1 else 0} {p.base} {p.stride} {p.firstNumeral} {p.numBits} {p.numDigits} {p.numFrac}"
+
+def showMade (m : Made) : String := s!"{m.ty.toString}:{m.rep.name}:{m.value}"
+
+/-- compile-time results: an ill-formed program is the observable `REJECTED` -/
+def showLit {α : Type} (f : α → String) : Res α → String
+  | .ok a => f a
+  | .ill _ => "REJECTED"
+  | r => showRes f r
+
+def parseStorage (s : String) : Option (Storage × String) :=
+  match parseTy s with
+  | some (.int t) => some (.builtin t, s)
+  | some (.wd d (.int ⟨32, true⟩)) => some (wideRep d, s)
+  | _ => none
+
+def i128max : Nat := 2 ^ 127 - 1
+
+/-- known-defect classes (see findings/C15.json) -/
+def clsEstimate := "C15.decimal_width_estimate"
+def clsUdlRound := "C15.udl_round_integer_with_fraction"
+def clsStaticPow2 := "C15.static_negative_power_of_two"
+
+/-- `<type>:<rep>:<value>` -/
+def splitMade (res : String) : Option (Ty × String × Int) :=
+  match res.splitOn ":" with
+  | [t, r, v] => do let t ← parseTy t; let v ← v.toInt?; pure (t, r, v)
+  | _ => none
+
+/-- digits, exponent, radix promised by a result type; `none` for the digits of a plain built-in rep -/
+def shape : Ty → Option (Option Nat × Int × Nat)
+  | .sc r e x => match shape r with
+    | some (d, 0, _) => some (d, e, x)
+    | _ => none
+  | .el d _ => some (some d, 0, 2)
+  | .wd d _ => some (some d, 0, 2)
+  | .ov r _ => shape r
+  | .rd r _ => shape r
+  | .int _ => some (none, 0, 2)
+  | _ => none
+
+/-- the implementation's result `res` denotes exactly `want` and its type can hold it -/
+def holdsExactly (res : String) (want : Rat) : Bool :=
+  match splitMade res with
+  | some (t, rep, v) =>
+    match shape t with
+    | some (d, e, x) =>
+      Token.scaledValue v x e == want &&
+      (match d with
+       | some d => v.natAbs < 2 ^ d
+       | none => match parseIntTy rep with
+         | some it => it.inRange v
+         | none => false)
+    | none => false
+  | none => false
+
+def isPow2 (n : Nat) : Bool := n != 0 && 2 ^ n.log2 == n
+
+def checkC15 (toks : List String) (res : String) : Option Verdict :=
+  match toks with
+  | ["scan", tok] =>
+    let cs := tok.toList
+    let m := scanString cs
+    let model := showRes showParams m
+    match Token.token cs with
+    | none => some { model, branch := "scan/malformed", nontrivial := false }
+    | some t =>
+      let sig := Token.positional t.body.base t.body.digits
+      let nums := (res.splitOn " ").filterMap String.toNat?
+      let ok : Bool := match nums with
+        | [_, base, _, _, bits, digits, frac] =>
+          decide (sig < 2 ^ bits) &&
+          (t.signed || (base == t.body.base && digits == t.body.digits.length && frac == t.body.frac))
+        | _ => false
+      let short : Bool := match nums with
+        | [_, _, _, _, bits, _, _] => t.body.base == 10 && decide (sig ≥ 2 ^ bits)
+        | _ => false
+      some { model, spec := some ok, cls := if short then clsEstimate else "",
+             branch := s!"scan/base{t.body.base}" ++ (if t.body.hasPoint then "/frac" else "") }
+  | ["parse", ty, tok] => do
+    let (S, tyName) ← parseStorage ty
+    let cs := tok.toList
+    let m := parse S cs
+    let model := showRes (fun v => s!"{tyName}:{v}") m
+    match Token.token cs with
+    | none => some { model, branch := "parse/malformed", nontrivial := false }
+    | some t =>
+      if t.isInteger && S.holds t.significand then
+        some { model, spec := some (res == s!"{tyName}:{t.significand}"),
+               branch := s!"parse/base{t.body.base}/chunks{t.body.digits.length / (if t.body.base == 10 then 18 else if t.body.base == 16 then 15 else if t.body.base == 8 then 21 else 63)}" }
+      else
+        some { model, branch := if t.isInteger then "parse/does-not-fit" else "parse/fraction", nontrivial := false }
+  | ["lit", kind, tok] =>
+    let cs := tok.toList
+    let t? := match Token.token cs with
+      | some t => if t.signed then none else some t
+      | none => none
+    match kind with
+    | "c" =>
+      let model := showLit (fun (v, d) => s!"c(i128):{v}:D{d}") (litC cs)
+      match t? with
+      | some t =>
+        let sig := t.significand.toNat
+        if t.isInteger && sig ≤ i128max then
+          let ok := res == s!"c(i128):{sig}:D{Token.bitLength sig}"
+          let short := t.body.base == 10 && (match scanString cs with
+            | .ok p => decide (sig ≥ 2 ^ p.numBits) | _ => false)
+          some { model, spec := some ok, cls := if short then clsEstimate else "", branch := "lit/c" }
+        else some { model, branch := "lit/c/unrepresentable", nontrivial := false }
+      | none => some { model, branch := "lit/c/malformed", nontrivial := false }
+    | "wide" =>
+      let model := showLit showMade (litWide cs)
+      match t? with
+      | some t =>
+        if t.isInteger then
+          let short := t.body.base == 10 && (match scanString cs with
+            | .ok p => decide (t.significand.toNat ≥ 2 ^ p.numBits) | _ => false)
+          some { model, spec := some (holdsExactly res t.value), cls := if short then clsEstimate else "",
+                 branch := "lit/wide/" ++ (match litWide cs with | .ok m => m.rep.name | _ => "rejected") }
+        else some { model, branch := "lit/wide/fraction", nontrivial := false }
+      | none => some { model, branch := "lit/wide/malformed", nontrivial := false }
+    | "cnl" | "cnl2" =>
+      let m := if kind == "cnl" then litCnl cs else litCnl2 cs
+      let model := showLit showMade m
+      match t? with
+      | some t =>
+        let sig := t.significand.toNat
+        let out := if kind == "cnl" then t.body.base else 2
+        let representable := kind == "cnl" || t.body.base != 10 || sig % 5 ^ t.body.frac == 0
+        if representable && sig ≤ i128max / out then
+          let short := t.body.base == 10 && (match scanString cs with
+            | .ok p => decide (sig ≥ 2 ^ p.numBits) | _ => false)
+          let round := t.body.frac > 0 && sig % (t.body.base ^ t.body.frac * out) == 0 && sig != 0
+          some { model, spec := some (holdsExactly res t.value),
+                 cls := if short then clsEstimate else if round then clsUdlRound else "",
+                 branch := s!"lit/{kind}" ++ (if t.body.hasPoint then "/frac" else "") }
+        else some { model, branch := s!"lit/{kind}/unrepresentable", nontrivial := false }
+      | none => some { model, branch := s!"lit/{kind}/malformed", nontrivial := false }
+    | _ => none
+  | ["mk", fn, "c", v] => do
+    let v ← v.toInt?
+    let m ← match fn with
+      | "elastic_integer" => some (makeElasticInteger v)
+      | "elastic_scaled_integer" => some (makeElasticScaledInteger v)
+      | "scaled_integer" => some (makeScaledInteger v)
+      | "static_integer" => some (makeStaticInteger v)
+      | "static_number" => some (makeStaticNumber v)
+      | _ => none
+    let model := showLit showMade m
+    -- promise: the type holds v exactly; trailing zero bits are in the exponent (scaled kinds);
+    -- the digit count is the number of used digits
+    let tz := Token.trailingZeros v.natAbs
+    let scaled := fn == "elastic_scaled_integer" || fn == "scaled_integer" || fn == "static_number"
+    let promised : Bool := match splitMade res with
+      | some (t, _, x) => match shape t with
+        | some (d, e, _) =>
+          (e == (if scaled then (tz : Int) else 0)) &&
+          (match d with
+           | some d => d == Token.bitLength x.natAbs || d == max (Token.bitLength x.natAbs) 1
+           | none => true)
+        | none => false
+      | none => false
+    let ok := holdsExactly res (v : Rat) && promised
+    let pow2 := v < 0 && isPow2 v.natAbs && (fn == "static_integer" || fn == "static_number")
+    some { model, spec := some ok, cls := if pow2 then clsStaticPow2 else "", branch := s!"mk/{fn}/c" }
+  | ["mk", fn, ty, v] => do
+    let T ← parseIntTy ty
+    let v ← v.toInt?
+    let m ← makeFromValue fn T v
+    let model := showLit showMade m
+    let lowest := T.signed && v == T.lowest && fn == "static_number"
+    some { model, spec := some (holdsExactly res (v : Rat)), cls := if lowest then clsStaticPow2 else "", branch := s!"mk/{fn}/{ty}" }
+  | _ => none
 
 end Cnl.Drv
